@@ -323,7 +323,8 @@ func c20RunCase(c *Ctx, raw []byte) string {
 	return c20Exec(c, cs)
 }
 
-func c20Exec(c *Ctx, cs c20Case) string {
+func c20Exec(c *Ctx, cs c20Case) (outcome string) {
+	defer c.guardCase("validations", cs, &outcome)
 	viol := func(oracle, class, ptr, exp, obs string) {
 		c.Violate(Violation{Oracle: oracle, Class: class, Pointer: ptr, Expected: exp, Observed: obs,
 			Features: map[string]string{"carrier": cs.Carrier, "op": cs.Op}, Case: cs})
